@@ -19,6 +19,7 @@ func init() {
 			"R20.2 every template executed by package middleware is an html/template (option values are escaped). R20.3 the API handlers derive the spec route from the UI's SpecURL for every URL that parses, and the three flavours wire Spec(specPath, raw spec, UI(opts, routes), doc option) identically. " +
 			"R20.4 every field referenced by the built-in templates exists in the options struct it is executed with. " +
 			"R20.3 also: SpecURL is only ever set from an option argument, copied, or defaulted when empty — never rewritten. " +
+			"R20.1 also: the page is rendered into a buffer created by that very construction; R20.3 also: the spec document name is stored verbatim. " +
 			"NOT decided: the text html/template emits; behaviour of path.Clean/url.Parse.",
 		Run: runC20,
 	})
